@@ -127,6 +127,15 @@ def check_form(ctx, form, probes, tag="gen", expect_reject=False, r=None, env_na
                 ctx.fail(Failure("reparse-crash", f"re-parse of the mixed channel failed: {r['msg']}", case, signature=sig))
                 ctx.record({"form": form}, True)
                 return None
+        if not expect_reject and tag in ("gen", "env") and probes:
+            # user text must not decide whether the form converts: the same form with benign texts
+            ph0 = F.with_cells(form, probes, lambda p: F.placeholder_parts(p["parts"]))
+            r0 = impl.run(ph0)
+            if r0["ok"]:
+                ctx.fail(Failure("text-changes-outcome", f"the form is {r['class']} ({r.get('msg')}) although the same form with benign texts converts",
+                                 case, signature=f"text-changes-outcome:{r['class']}:{r.get('site', '')}"))
+                ctx.record({"form": form}, True)
+                return None
         ctx.record({"form": form}, False)
         return None
     tree, err = parse_doc(ctx, r["xform"], "XForm", form)
@@ -159,7 +168,7 @@ def check_form(ctx, form, probes, tag="gen", expect_reject=False, r=None, env_na
             if kind == "attr-dynamic":
                 dynamic.add(p["id"])
                 ctx.count("default:dynamic")
-            if F.ws_norm_attr(got) != F.ws_norm_attr(cell):
+            if F.ws_norm_attr(got) != F.ws_norm_attr(F.expected_attr(p["parts"], XP)):
                 ctx.fail(Failure("not-recovered", f"{p['chan']} (attribute): cell={cell!r} recovered={got!r}", pc,
                                  signature="not-recovered:attr:other"))
             continue
@@ -541,12 +550,10 @@ def replay(ctx, payload, bs):
 
 
 MATCHERS = {
-    # F4 proper (non-XML character written raw -> not well-formed) is fixed by validate_xml_document (4f1a33e):
-    # no matcher, so that it comes back as a VIOLATION.  Still open: the re-parse of the mixed channel runs before that check.
-    "F4-reparse-non-xml-char": lambda f: f.signature == "reparse-crash:nonxml-char",
+    # fixed, hence no matcher (they come back as VIOLATION): F4 (4f1a33e validate_xml_document), F4-reparse-non-xml-char
+    # (9bea19c character check before the re-parse), F41-guidance-prefixed-name (ac4d9ef rpartition in Survey.itext)
     "F15-instance-op-swallow": lambda f: f.signature in ("structure:instance-op-swallow", "not-recovered:instance-op-swallow", "shape:instance-op-swallow"),
     "F39-instance-double-escape": lambda f: f.signature in ("structure:instance-double-escape", "not-recovered:instance-double-escape", "shape:instance-double-escape"),
-    "F41-guidance-prefixed-name": lambda f: f.signature in ("not-recovered:guidance-media-url-prefixed-name", "structure:guidance-media-url-prefixed-name"),
     "F40-instance-hidden-by-quote": lambda f: f.signature in ("structure:instance-hidden-by-quote", "not-recovered:instance-hidden-by-quote", "shape:instance-hidden-by-quote"),
 }
 
